@@ -781,8 +781,7 @@ impl Property for C03 {
                 let low = lower(&prog);
                 let cf = analyse(&prog, &low);
                 if !cf.all_cf {
-                    stats.count("skipped_coincidental_family", 1);
-                    return Ok(());
+                    stats.count("coincidental_family", 1);
                 }
                 let reg = &low.registry;
                 if family_nontrivial(reg) {
@@ -801,8 +800,7 @@ impl Property for C03 {
                     return Ok(());
                 };
                 if !case.cf.all_cf {
-                    stats.count("skipped_coincidental_family", 1);
-                    return Ok(());
+                    stats.count("coincidental_family", 1);
                 }
                 let reg = if t.flag() {
                     let perm = gen_perm(&mut t, case.low.registry.types.len());
